@@ -86,10 +86,10 @@ ASSUME LET r == R(Img(<<H(2, 2), X, H(1, 1), H(3, 1)>>,
 ASSUME ApplyRetire([b \in Blocks |-> Z], <<<<17, 1>>, <<18, 2>>>>) =
        [b \in Blocks |-> IF b \in 17 .. 19 THEN M(20 - b, 1) ELSE Z]
 \* crash images: units, subsets, torn units
-P == <<[kind |-> "d", at |-> 16, c |-> <<H(2, 2), T(2, 1, "")>>>>,
+P == <<[kind |-> "d", at |-> 16, c |-> <<H(2, 2), T(2, 1, "")>>],
        [kind |-> "j", slot |-> 0, v |-> J(1, FALSE, <<>>)],
        [kind |-> "m", copy |-> 1, v |-> Mt(2, 3, 1, 0)],
-       [kind |-> "d", at |-> 17, c |-> <<M(1, 1)>>>>>>
+       [kind |-> "d", at |-> 17, c |-> <<M(1, 1)>>]>>
 ASSUME Units(P) = {<<1, 0>>, <<1, 1>>, <<2, 0>>, <<3, 0>>, <<4, 0>>}
 ASSUME Units(<<>>) = {}
 ASSUME ApplyUnits(V3(<<>>), P, {}, 1) = V3(<<>>)
